@@ -33,6 +33,8 @@ def check(prop: str, tier: str, seed: int) -> int:
     hists = edit.model_histories(tier, seed, run)
     if prop == "C09":
         hists = [h for h in hists if any(st["op"]["sel"] > 0 for st in h["steps"])]
+    if prop != "C08":       # a malformed request on its own (one-step history) is C08's business only
+        hists = [h for h in hists if not (len(h["steps"]) == 1 and h["steps"][0]["op"].get("bad"))]
     cases, discards = edit.make_cases(hists, tier, seed)
     if tier == "thorough" and prop != "C09":
         sc = edit.suite_cases(len(cases) + 1)       # the edits the repository's own tests perform, judged like any other step
